@@ -7,7 +7,7 @@ if [ -n "$(git status --porcelain --untracked-files=no)" ]; then echo "/repo not
 git apply "$D/patch.diff" || { echo "patch does not apply to /repo"; exit 1; }
 : > "$D/check_$TIER.txt"
 for c in "$@"; do
-  ( cd /verif && VERIF_ROOT_OVERRIDE= ./check "$c" "$TIER" 2>&1 | grep -E "^C[0-9]+ (quick|thorough)|VIOLATION|INCONCLUSIVE" | sed 's/replay=[^ ]* //' ) >> "$D/check_$TIER.txt"
+  ( cd /verif && VERIF_ROOT_OVERRIDE= ./check "$c" "$TIER" 2>&1 | grep -a -E "^C[0-9]+ (quick|thorough)|VIOLATION|INCONCLUSIVE" | sed 's/replay=[^ ]* //' ) >> "$D/check_$TIER.txt"
 done
 git -C /repo checkout -- .
 cat "$D/check_$TIER.txt"
